@@ -16,6 +16,7 @@ def run_family(ctx, name: str, cases: list) -> dict:
     from vf import watchdog
 
     traces, findings, kept = [], [], []
+    cases = [(dict(cfg, debug=True) if i % 3 == 2 else cfg, sch) for i, (cfg, sch) in enumerate(cases)]
     for i, (cfg, sch) in enumerate(cases):
         try:
             with watchdog.limit(90, "schedule"):
